@@ -496,6 +496,92 @@ out:
     if (amap) pixman_image_unref(amap);
 }
 
+/* phase 7: the other drawing entry points (glyphs, trapezoids / triangles, gradient sources with every repeat, fills) under every configuration */
+enum { E7_GLYPHS_MASK, E7_GLYPHS_NO_MASK, E7_TRAPEZOIDS, E7_TRIANGLES, E7_GRADIENT, E7_FILL_RECTS, NE7 };
+static const char *E7N[NE7] = { "composite_glyphs", "composite_glyphs_no_mask", "composite_trapezoids", "composite_triangles", "gradient source", "fill_rectangles" };
+static const pixman_format_code_t D7[] = { PIXMAN_a8r8g8b8, PIXMAN_x8r8g8b8, PIXMAN_r5g6b5, PIXMAN_a8, PIXMAN_a8b8g8r8, PIXMAN_a2r10g10b10, PIXMAN_a1, PIXMAN_r8g8b8 };
+static const char *D7N[] = { "a8r8g8b8", "x8r8g8b8", "r5g6b5", "a8", "a8b8g8r8", "a2r10g10b10", "a1", "r8g8b8" };
+#define ND7 8
+static const int O7[] = { PIXMAN_OP_SRC, PIXMAN_OP_OVER, PIXMAN_OP_ADD, PIXMAN_OP_IN, PIXMAN_OP_OUT_REVERSE, PIXMAN_OP_ATOP_REVERSE, PIXMAN_OP_SATURATE, PIXMAN_OP_SCREEN };
+#define NO7 8
+#define W7 48
+#define H7 6
+static void p7_case(uint64_t idx, void *vctx)
+{
+    (void)vctx;
+    int dims[5] = { 12, NO7, ND7, 3, NE7 }, d[5];
+    vf_decode(idx, dims, 5, d);
+    int var = d[0], op = O7[d[1]], di = d[2], srck = d[3], ep = d[4];
+    int bpp = PIXMAN_FORMAT_BPP(D7[di]); int stride = ((W7 * bpp + 31) / 32) * 4 + 4; size_t dsz = (size_t)stride * H7;
+    uint32_t *db = malloc(dsz + 16), *d0 = malloc(dsz + 16), *ref = malloc(dsz + 16);
+    for (size_t i = 0; i < (dsz + 3) / 4; i++) d0[i] = pat(var & 1, i + 17);
+    pixman_image_t *dst = pixman_image_create_bits(D7[di], W7, H7, db, stride);
+    /* source for glyph / trapezoid requests: solid, bits, gradient */
+    pixman_color_t col = { 0x8000, 0x4000, 0xc000, 0xc000 };
+    static uint32_t sbits[H7 + 4][W7 + 8];
+    for (int y = 0; y < H7 + 4; y++) for (int x = 0; x < W7 + 8; x++) sbits[y][x] = pat(1, (uint64_t)(y * 64 + x));
+    pixman_point_fixed_t p1 = { 0x8000, 0 }, p2 = { (W7 / 3) << 16, (H7 / 2) << 16 }, c2 = { (W7 / 2) << 16, 2 << 16 };
+    pixman_gradient_stop_t stops[3] = { { 0, { 0xffff, 0, 0, 0xffff } }, { 0x6000, { 0, 0x8000, 0, 0x8000 } }, { 0x10000, { 0, 0, 0xffff, 0xc000 } } };
+    pixman_image_t *src = NULL;
+    if (ep == E7_GRADIENT) {
+        int gk = var % 3, rep = var / 3;     /* 3 gradient kinds x 4 repeats */
+        src = gk == 0 ? pixman_image_create_linear_gradient(&p1, &p2, stops, 3) : gk == 1 ? pixman_image_create_radial_gradient(&p1, &c2, 0x8000, 5 << 16, stops, 3) : pixman_image_create_conical_gradient(&c2, 40 << 16, stops, 3);
+        static const pixman_repeat_t reps[4] = { PIXMAN_REPEAT_NONE, PIXMAN_REPEAT_NORMAL, PIXMAN_REPEAT_PAD, PIXMAN_REPEAT_REFLECT };
+        pixman_image_set_repeat(src, reps[rep]);
+        if (srck == 1) { pixman_transform_t t; pixman_transform_init_scale(&t, 0x18000, 0xc000); pixman_image_set_transform(src, &t); }
+    } else if (srck == 0) src = pixman_image_create_solid_fill(&col);
+    else if (srck == 1) src = pixman_image_create_bits(PIXMAN_a8r8g8b8, W7 + 8, H7 + 4, &sbits[0][0], (W7 + 8) * 4);
+    else { src = pixman_image_create_linear_gradient(&p1, &p2, stops, 3); pixman_image_set_repeat(src, PIXMAN_REPEAT_REFLECT); }
+    /* glyphs */
+    pixman_glyph_cache_t *cache = NULL; pixman_glyph_t gl[6]; int ngl = 0;
+    static uint8_t g8[5][8]; static uint32_t g32[4][6];
+    pixman_image_t *gi8 = NULL, *gi32 = NULL;
+    if (ep == E7_GLYPHS_MASK || ep == E7_GLYPHS_NO_MASK) {
+        for (int y = 0; y < 5; y++) for (int x = 0; x < 8; x++) g8[y][x] = (uint8_t)(x < 7 ? 0x11 * ((x * 3 + y * 5) % 16) : 0);
+        for (int y = 0; y < 4; y++) for (int x = 0; x < 6; x++) g32[y][x] = pat(0, (uint64_t)(y * 6 + x + 3));
+        gi8 = pixman_image_create_bits(PIXMAN_a8, 7, 5, (uint32_t *)&g8[0][0], 8); gi32 = pixman_image_create_bits(PIXMAN_a8r8g8b8, 6, 4, &g32[0][0], 24);
+        cache = pixman_glyph_cache_create(); pixman_glyph_cache_freeze(cache);
+        const void *ga = pixman_glyph_cache_insert(cache, (void *)1, (void *)1, 1, 2, gi8), *gb = pixman_glyph_cache_insert(cache, (void *)1, (void *)2, 0, 0, gi32);
+        int mix = var % 3;   /* 0: a8 glyphs only, 1: a8r8g8b8 only, 2: mixed */
+        int xs[6] = { 1, 6, 12, 20, 30, 44 };     /* overlapping and clipped by the right edge */
+        for (int k = 0; k < 6; k++) { gl[ngl].x = xs[k] + (var / 3); gl[ngl].y = 1 + (k & 1); gl[ngl].glyph = mix == 0 ? ga : mix == 1 ? gb : (k & 1 ? ga : gb); ngl++; }
+    }
+    pixman_trapezoid_t tz[2] = { { 0x4000, 0x5c000, { { 0x28000 + var * 0x5555, 0 }, { 0x10000, 0x60000 } }, { { 0x1c8000, 0 }, { 0x2c0000 - var * 0x3000, 0x60000 } } },
+                                 { 0x18000, 0x38000, { { 0x100000, 0x10000 }, { 0x140000, 0x40000 } }, { { 0x2e0000, 0x10000 }, { 0x2f8000, 0x40000 } } } };
+    pixman_triangle_t tri[2] = { { { 0x10000 + var * 0x2000, 0x8000 }, { 0x200000, 0x20000 }, { 0x80000, 0x58000 } }, { { 0x2f0000, 0 }, { 0x180000, 0x30000 }, { 0x2a0000, 0x5fff0 } } };
+    static const pixman_format_code_t mfmts[3] = { PIXMAN_a8, PIXMAN_a1, PIXMAN_a4 };
+    char cfgn[64];
+    uint32_t undef = 0; { ph_fmt_t df; ph_fmt_describe(D7[di], D7N[di], &df); undef = ~ph_defined_mask(&df) & (bpp == 32 ? 0xffffffffu : ((1u << bpp) - 1)); }
+    for (int ci = -1; ci < NCFGS && !vf_failed(); ci++) {
+        int cfg = ci < 0 ? REF_CFG : CFGS[ci]; if (ci >= 0 && cfg == REF_CFG) continue;
+        ph_set_cfg(cfg);
+        memcpy(db, d0, dsz);
+        switch (ep) {
+        case E7_GLYPHS_MASK: pixman_composite_glyphs((pixman_op_t)op, src, dst, var & 4 ? PIXMAN_a8r8g8b8 : PIXMAN_a8, srck, 0, 0, 0, 0, 0, W7, H7, cache, ngl, gl); break;
+        case E7_GLYPHS_NO_MASK: pixman_composite_glyphs_no_mask((pixman_op_t)op, src, dst, srck, 0, 0, 0, cache, ngl, gl); break;
+        case E7_TRAPEZOIDS: pixman_composite_trapezoids((pixman_op_t)op, src, dst, mfmts[var % 3], srck, 0, var / 3 - 1, 0, 2, tz); break;
+        case E7_TRIANGLES: pixman_composite_triangles((pixman_op_t)op, src, dst, mfmts[var % 3], srck, 0, 0, var / 6, 2, tri); break;
+        case E7_GRADIENT: pixman_image_composite32((pixman_op_t)op, src, NULL, dst, srck == 2 ? -7 : 0, 0, 0, 0, 1, 0, W7 - 2, H7); break;
+        case E7_FILL_RECTS: {
+            pixman_color_t c = { (uint16_t)(var * 0x1500), 0x2000, (uint16_t)(0xffff - var * 0x1111), srck == 0 ? 0xffff : srck == 1 ? 0xff80 : 0x8000 };
+            pixman_rectangle16_t r[3] = { { 1, 0, 9, 3 }, { (int16_t)(5 + var), 2, 30, 3 }, { 40, 1, 20, 9 } };
+            pixman_image_fill_rectangles((pixman_op_t)op, dst, &c, 3, r); break; }
+        }
+        vf_count_libcalls(1);
+        if (undef) for (int yy = 0; yy < H7; yy++) { uint8_t *row = (uint8_t *)db + (size_t)yy * stride; for (int xx = 0; xx < W7; xx++) ph_put_pixel(row, bpp, xx, ph_get_pixel(row, bpp, xx) & ~undef); }
+        if (ci < 0) memcpy(ref, db, dsz);
+        else if (memcmp(ref, db, dsz)) {
+            size_t off = 0; while (off < dsz && ((uint8_t *)ref)[off] == ((uint8_t *)db)[off]) off++;
+            vf_violation("c02-impl-differs-entry-point", "%s op=%s dest=%s source-kind=%d variant=%d: PIXMAN_DISABLE=[%s] differs from the general path at byte %zu (row %zu, byte-in-row %zu): %02x vs %02x",
+                         E7N[ep], rc_op_name(op), D7N[di], srck, var, ph_cfg_name(cfg, cfgn, sizeof cfgn), off, off / stride, off % stride, ((uint8_t *)db)[off], ((uint8_t *)ref)[off]);
+        }
+    }
+    if (!vf_in_confirm) { vf_count_eval(1); if (memcmp(ref, d0, dsz)) vf_count_nontrivial(1); vf_outcome(vf_mix(vf_hash64(ref, dsz, (uint64_t)ep), idx)); }
+    if (cache) { pixman_glyph_cache_thaw(cache); pixman_glyph_cache_destroy(cache); }
+    if (gi8) pixman_image_unref(gi8); if (gi32) pixman_image_unref(gi32);
+    pixman_image_unref(src); pixman_image_unref(dst); free(db); free(d0); free(ref);
+}
+
 /* phase 4: blt / fill under every configuration */
 static void p4_case(uint64_t idx, void *vctx)
 {
@@ -596,15 +682,17 @@ int main(int argc, char **argv)
     p6_ctx c6 = { c2.n, c2.combo, ops };
     vf_space_run("phase6-request-after-request", (uint64_t)c2.n * NV6, p6_case, &c6);
 
+    vf_space_run("phase7-glyphs-trapezoids-gradients-fills", (uint64_t)12 * NO7 * ND7 * 3 * NE7, p7_case, NULL);
+
     write_coverage();
     if (cov->cache_mismatch && !vf->nviol) {
         vf_rec_t r; memset(&r, 0, sizeof r); snprintf(r.key, sizeof r.key, "c02-cache-returned-other-path"); snprintf(r.space, sizeof r.space, "all");
         snprintf(r.text, sizeof r.text, "%llu lookups returned a function different from the first matching table entry", (unsigned long long)cov->cache_mismatch);
         vf_commit(&r);
     }
-    static char bounds[700];
+    static char bounds[1000];
     snprintf(bounds, sizeof bounds, "%d configurations; %d operators x %d source kinds x %d mask kinds x %d destination formats; loop geometry: %d widths x dest_x 0..7 x 3 source offsets on the %d combinations that reach a fast path; "
-             "transformed: 5 ops x 6 src x 3 mask x 6 dst x %d transforms x 4 filters (nearest, bilinear, 3x3 convolution, separable) x 4 repeats; blt/fill 6 bpp x 20 x x 40 widths; rotations 90/180/270 x 4 formats x 16 widths (1..128) x 4 dest_x x 2 heights x 2 ops on covering 132x132 sources; request-after-request: every fast-path combination x 9 one-property changes between two consecutive requests", NCFGS, nops, NSRC, NMASK, NDST,
+             "transformed: 5 ops x 6 src x 3 mask x 6 dst x %d transforms x 4 filters (nearest, bilinear, 3x3 convolution, separable) x 4 repeats; blt/fill 6 bpp x 20 x x 40 widths; rotations 90/180/270 x 4 formats x 16 widths (1..128) x 4 dest_x x 2 heights x 2 ops on covering 132x132 sources; request-after-request: every fast-path combination x 9 one-property changes between two consecutive requests; other entry points (glyphs with/without mask, trapezoids, triangles, 3 gradient kinds x 4 repeats, fill_rectangles) x 8 ops x 8 destination formats x 3 source kinds x 12 variants", NCFGS, nops, NSRC, NMASK, NDST,
              (int)(sizeof W_ALL / sizeof W_ALL[0]), c2.n, NXF);
     vf_bounds = bounds;
     return vf_finish();
